@@ -46,7 +46,9 @@ LookOK(R, L, G, q) ==
             /\ (q.n = "ss") <=> (c.own /\ c.vals[2])
       [] OTHER -> FALSE
 
-LooksOK(R, L, G, ln) == \A i \in DOMAIN ln.q : LookOK(R, L, G, ln.q[i])
+\* bad collects <<line, i>>: lookup i of that line has a wrong answer (i = 0: the
+\* reply of the operation itself is wrong).
+BadLooks(R, L, G, ln) == {<<l, i>> : i \in {j \in DOMAIN ln.q : ~LookOK(R, L, G, ln.q[j])}}
 
 Res(ln) ==
     CASE ln.op = "add" -> AddRes(reg, Cl(ln.c))
@@ -71,15 +73,15 @@ Step ==
        ELSE IF ln.op = "lease" THEN
             LET L2 == (ln.a :> ln.m) @@ leases IN
             /\ leases' = L2
-            /\ bad' = IF LooksOK(reg, L2, glob, ln) THEN bad ELSE bad \cup {l}
+            /\ bad' = bad \cup BadLooks(reg, L2, glob, ln)
             /\ UNCHANGED <<reg, glob, skipping, skipped>>
        ELSE
             LET r == Res(ln) IN
             IF r.out # ln.out
-            THEN /\ bad' = bad \cup {l} /\ skipping' = TRUE
+            THEN /\ bad' = bad \cup {<<l, 0>>} /\ skipping' = TRUE
                  /\ UNCHANGED <<reg, leases, glob, skipped>>
             ELSE /\ reg' = r.reg
-                 /\ bad' = IF LooksOK(r.reg, leases, glob, ln) THEN bad ELSE bad \cup {l}
+                 /\ bad' = bad \cup BadLooks(r.reg, leases, glob, ln)
                  /\ UNCHANGED <<leases, glob, skipping, skipped>>
     /\ (l' = Len(Trace) + 1 =>
           PrintT(<<"@@V", ToJson([n |-> Len(Trace), bad |-> bad', skipped |-> skipped'])>>))
